@@ -40,6 +40,9 @@ type SCTP struct {
 	// succeed (false); every call, failed or not, is recorded in Attempts with its stream.
 	WFail    []bool
 	Attempts []SCTPWrite
+	// WHook, when set, decides the outcome of each SCTPWrite: accept < len(b) together with temp
+	// means "accept bytes were taken, then a temporary error" (the accepted part is recorded).
+	WHook func(b []byte, stream uint16) (accept int, temp bool)
 }
 
 // TempErr is a temporary net.Error.
@@ -129,6 +132,15 @@ func (s *SCTP) SCTPWrite(b []byte, info *sctp.SndRcvInfo) (int, error) {
 		w.Stream, w.PPID = info.Stream, info.PPID
 	}
 	s.Attempts = append(s.Attempts, w)
+	if s.WHook != nil {
+		if k, temp := s.WHook(b, w.Stream); temp {
+			if k > 0 {
+				w.Data = w.Data[:k]
+				s.Writes = append(s.Writes, w)
+			}
+			return k, TempErr{}
+		}
+	}
 	if len(s.WFail) > 0 {
 		fail := s.WFail[0]
 		s.WFail = s.WFail[1:]
